@@ -838,7 +838,7 @@ func TestCheck(t *testing.T) {
 		// every way of being the wrong SCT
 		c.runFamily(family{"wrong-scts", mid, modesQ, c.pick(ecRSA, []int{0}), sers[:1], vals[:1], us[:1], []int{0}, subjectKeys[:1], wrongSets(), true, false})
 		// extensions whose OIDs are adjacent to the two CT OIDs (one more arc, the common prefix, a sibling)
-		c.runFamily(family{"adjacent-oids", layoutsOver([]int{8, 9, 10, 11, 0}, 1, 2), modesQ, c.pick([]string{"p256"}, []int{0}), sers[:1], vals[:1], us[:1], []int{0}, subjectKeys[:1], one, false, false})
+		c.runFamily(family{"adjacent-oids", layoutsOver([]int{8, 9, 10, 11, 12, 13, 0}, 1, 2), modesQ, c.pick([]string{"p256"}, []int{0}), sers[:1], vals[:1], us[:1], []int{0}, subjectKeys[:1], one, false, false})
 		// the target extension with the opposite criticality flag
 		c.runFamily(family{"target-criticality-flipped", small, modesQ, c.pick([]string{"p256"}, []int{0}), sers[:1], vals[:1], us[:1], []int{0}, subjectKeys[:1], one, false, true})
 		c.failures(mid, modesQ)
@@ -857,7 +857,7 @@ func TestCheck(t *testing.T) {
 		c.runFamily(family{"layouts-4-neighbours", four, modesT, c.pick([]string{"p256"}, []int{0}), sers[1:2], vals[:1], us[:2], []int{1}, subjectKeys[:1], one, false, false})
 		c.runFamily(family{"sct-lists", small, modesQ, c.pick(ecRSA, []int{1}), sers[:1], vals[:1], us[:1], []int{0}, subjectKeys[:1], append(sctShapes(3, []int{0, 1, 2}), sctShapes(2, []int{3})...), true, false})
 		c.runFamily(family{"wrong-scts", mid, modesT, c.pick(kinds, []int{0}), sers[:1], vals[:1], us[:1], []int{0}, subjectKeys[:1], wrongSets(), true, false})
-		c.runFamily(family{"adjacent-oids", layoutsOver([]int{8, 9, 10, 11, 0}, 1, 3), modesT, c.pick(ecRSA, []int{0}), sers[:1], vals[:1], us[:1], []int{0}, subjectKeys[:1], one, false, false})
+		c.runFamily(family{"adjacent-oids", layoutsOver([]int{8, 9, 10, 11, 12, 13, 0}, 1, 3), modesT, c.pick(ecRSA, []int{0}), sers[:1], vals[:1], us[:1], []int{0}, subjectKeys[:1], one, false, false})
 		c.runFamily(family{"target-criticality-flipped", mid, modesT, c.pick(ecRSA, []int{0}), sers[:1], vals[:1], us[:1], []int{0}, subjectKeys[:1], one, false, true})
 		c.failures(core, modesT)
 	}
